@@ -55,6 +55,7 @@ inductive Prog
   | panics (size : Nat)               -- the handler panics, the recovery middleware answers 500 with `size` bytes (library body)
   | copy (status size : Nat)          -- WriteHeader(status); io.Copy(w, reader of `size` bytes) — the wrapper's ReadFrom
   | copyOnly (size : Nat)             -- io.Copy(w, reader) without WriteHeader
+  | flushed (status size : Nat)       -- Flush() first (commits an implied 200), then WriteHeader(status); Write(size bytes)
   deriving DecidableEq, Repr
 
 /-- events the counting recorder and the probe handlers log, in order -/
@@ -81,6 +82,7 @@ def Prog.resp : Prog → Nat × Nat × Bool
   | .panics n => (500, n, true)
   | .copy st n => (st, n, true)
   | .copyOnly n => (200, n, true)
+  | .flushed _ n => (200, n, true)
 
 /-- ids the harness gives the middleware in front of the `abort` / `panics` routes -/
 def mwHid : Nat := 90
@@ -206,6 +208,7 @@ inductive WOp
   | header (code : Nat)   -- WriteHeader(code)
   | write (n : Nat)       -- Write(n bytes), fully accepted by the underlying writer
   | readFrom (n : Nat)    -- ReadFrom(r) with n bytes in r (io.Copy into the writer)
+  | flush                 -- Flush() on a writer whose underlying writer is an http.Flusher: commits the header
   deriving DecidableEq, Repr
 
 /-- net/http's (and httptest's) writer as the client sees it: the first WriteHeader wins, a Write without
@@ -223,6 +226,7 @@ def Wire.step (w : Wire) : WOp → Wire
   | .header c => if isInfo c then w else if w.status.isNone then { w with status := some c } else w
   | .write n => { status := some (w.status.getD 200), size := w.size + n }
   | .readFrom n => { status := some (w.status.getD 200), size := w.size + n }
+  | .flush => { w with status := some (w.status.getD 200) }
 
 def Wire.clientStatus (w : Wire) : Nat := w.status.getD 200
 
@@ -249,12 +253,20 @@ def RW.step (rw : RW) : WOp → RW
     -- underlying writer, `rw.size += n`, `if !rw.written { rw.written = true; if rw.statusCode == 0 { rw.statusCode = 200 } }`
     let rw1 := { rw with under := rw.under.step (.readFrom n), size := rw.size + n }
     if !rw1.written then { rw1 with written := true, statusCode := if rw1.statusCode = 0 then 200 else rw1.statusCode } else rw1
+  | .flush =>
+    -- after /repo fix K08h: `if !rw.written { rw.written = true; if rw.statusCode == 0 { rw.statusCode = 200 } }; flusher.Flush()`
+    let rw1 := if !rw.written then { rw with written := true, statusCode := if rw.statusCode = 0 then 200 else rw.statusCode } else rw
+    { rw1 with under := rw1.under.step .flush }
+
+/-- Flush as shipped before K08h: forwarded without noticing that it commits the header -/
+def RW.flushAsIs (rw : RW) : RW := { rw with under := rw.under.step .flush }
 
 /-- WriteHeader as shipped before K08g: an informational code was taken for the final status and every later
     WriteHeader was swallowed -/
 def RW.stepAsIs (rw : RW) : WOp → RW
   | .header c =>
     if !rw.written then { rw with statusCode := c, under := rw.under.step (.header c), written := true } else rw
+  | .flush => rw.flushAsIs
   | op => rw.step op
 
 /-- StatusCode(): `if rw.statusCode == 0 { return http.StatusOK }` -/
@@ -273,5 +285,6 @@ def Prog.ops : Prog → List WOp
   | .panics n => [.header 500, .write n]
   | .copy st n => [.header st, .readFrom n]
   | .copyOnly n => [.readFrom n]
+  | .flushed st n => [.flush, .header st, .write n]
 
 end Rivaas.Serve
